@@ -76,7 +76,7 @@ theorem w_step1 : mergeGroup wCfg StrOracle.default wA ["1C", "1D", "1E"] = .ok 
 
 theorem w_opt_union3 (e : EqEnv) (n : Nat) : optimize wCfg e (n + 3) (.union [.ptr "1B", .ptr "1A", .int]) =
     .ok (.union [.ptr "1B", .ptr "1A", .int]) := by
-  simp [optimize, optimizeUnion, splitMembers, Ty.isInt, Ty.isFloat, Ty.isStr, Ty.isUnknown,
+  simp [optimize, optimizeUnion, splitMembers, splitMembersAux, Ty.size, Ty.isInt, Ty.isFloat, Ty.isStr, Ty.isUnknown,
     Ty.isNull, bind, Except.bind, pure, Except.pure, mkUnionMembers, flattenUnion, handleType, w_hA, w_hB, w_hI,
     wCfg]
 theorem w_opt_objF (e : EqEnv) (n : Nat) :
